@@ -35,9 +35,13 @@ import Driver.PuzFivecells
 import Driver.PuzYinyang
 import Driver.PuzCastleWall
 import Driver.PuzShakashaka
+import Driver.PuzMagnets
+import Driver.PuzNurimaze
+import Driver.PuzFirefly
+import Driver.PuzSlalom
 open Cspuz Cspuz.Drv
 
-def handlers : List (Sexp → Option Sexp) := [handleC13, handleGraph, handleCore, handleC18, handleC14, handleC15, handleC16, handleC12, handleC19, handleC20, handleC03, handlePuzSudoku, handlePuzStarBattle, handlePuzPutteria, handlePuzNorinori, handlePuzAkari, handlePuzAquarium, handlePuzBuilding, handlePuzDoppelblock, handlePuzSlitherlink, handlePuzSimpleloop, handlePuzMasyu, handlePuzGeradeweg, handlePuzYajilin, handlePuzCreek, handlePuzGokigen, handlePuzNurimisaki, handlePuzLits, handlePuzHeyawake, handlePuzView, handlePuzNurikabe, handlePuzCompass, handlePuzFillomino, handlePuzFivecells, handlePuzYinyang, handlePuzCastleWall, handlePuzShakashaka]
+def handlers : List (Sexp → Option Sexp) := [handleC13, handleGraph, handleCore, handleC18, handleC14, handleC15, handleC16, handleC12, handleC19, handleC20, handleC03, handlePuzSudoku, handlePuzStarBattle, handlePuzPutteria, handlePuzNorinori, handlePuzAkari, handlePuzAquarium, handlePuzBuilding, handlePuzDoppelblock, handlePuzSlitherlink, handlePuzSimpleloop, handlePuzMasyu, handlePuzGeradeweg, handlePuzYajilin, handlePuzCreek, handlePuzGokigen, handlePuzNurimisaki, handlePuzLits, handlePuzHeyawake, handlePuzView, handlePuzNurikabe, handlePuzCompass, handlePuzFillomino, handlePuzFivecells, handlePuzYinyang, handlePuzCastleWall, handlePuzShakashaka, handlePuzMagnets, handlePuzNurimaze, handlePuzFirefly, handlePuzSlalom]
 
 def handle (s : Sexp) : Sexp :=
   match s with
